@@ -92,6 +92,11 @@ class Priv:
     name: str
     _rev: int = 0
 
+class Sentinel:
+    """an input no routine knows (its text does not show an address)"""
+    def __repr__(self):
+        return "<sentinel>"
+
 class PrivPlain:
     """a plain annotated class with an underscore-led field its constructor accepts"""
     name: str
@@ -158,9 +163,13 @@ def marshal_here(tl, value):
 
 # key -> (type expression, valid value sources, unmarshal input sources)
 TYPES = {
-    "int": ("int", ["1", "True", "7"], ["'1'", "b'1'", "1.0", "1", "True", "'7'", "memoryview(b'1')", "memoryview(bytearray(b'7'))"]),
+    "int": ("int", ["1", "True", "7"], ["'1'", "b'1'", "1.0", "1", "True", "'7'", "memoryview(b'1')", "memoryview(bytearray(b'7'))",
+                                       # texts beyond the interpreter's limit for int <-> text conversion (4300 digits): numeric and not
+                                       "'7' * 5000", "'z' * 5000", "'-' + '1' * 4400"]),
     "float": ("float", ["1.0", "1", "2.5"], ["'1'", "1", "True", "'2.5'", "b'1.0'"]),
-    "str": ("str", ["'a'", "'1'"], ["1", "b'a'", "'a'", "1.0", "True"]),
+    "str": ("str", ["'a'", "'1'"], ["1", "b'a'", "'a'", "1.0", "True",
+                                    # an int beyond the interpreter's int -> text limit: whether it can be written is a process-wide setting
+                                    "7 * 10 ** 6000", "-(10 ** 4400)"]),
     "Decimal": ("decimal.Decimal", ["decimal.Decimal('1.0')", "decimal.Decimal('1.00')"], ["'1.0'", "'1.00'", "1", "1.0"]),
     "datetime": ("datetime.datetime", ["datetime.datetime(2020, 1, 1, 5, 0, tzinfo=P5)", "datetime.datetime(2020, 1, 1, 0, 0, tzinfo=UTC)"],
                  ["'2020-01-01T05:00:00+05:00'", "'2020-01-01T00:00:00+00:00'", "1577836800", "1577836800.0", "'PT1H'", "'P1D'", "'2031-05-06'"]),
@@ -169,13 +178,13 @@ TYPES = {
     "timedelta": ("datetime.timedelta", ["datetime.timedelta(days=1)", "datetime.timedelta(hours=24)",
                                            # equal and equal-hashed, but a different class with its own text form
                                            "datetime.timedelta(days=30)", "pendulum.duration(months=1)", "pendulum.duration(days=30)"], ["'P1D'", "'PT24H'", "86400", "86400.0", "'PT1H'", "'2031-05-06'", "'05:00:00+05:00'", "'2020-01-01T05:00:00+05:00'"]),
-    "list[int]": ("list[int]", ["[1, 2]", "[True, 1.0]"], ["'[1, 2]'", "b'[1, 2]'", "[1, 2]", "['1', '2']", "(1, 2)"]),
+    "list[int]": ("list[int]", ["[1, 2]", "[True, 1.0]"], ["'[1, 2]'", "b'[1, 2]'", "[1, 2]", "['1', '2']", "(1, 2)", "'[' + '7' * 5000 + ']'", "['7' * 5000]"]),
     "AL": ("AL", ["[1, 2]"], ["'[1, 2]'", "[1, 2]"]),
     "dict[str, list[int]]": ("dict[str, list[int]]", ["{'a': [1]}"], ["'{\"a\": [1]}'", "{'a': [1]}", "{'a': ['1']}"]),
     "SAL": ("SAL", ["{'a': [1]}"], ["'{\"a\": [1]}'", "{'a': [1]}"]),
     "NTy": ("NTy", ["{'a': 1}"], ["'{\"a\": 1}'", "{'a': 1}"]),
     "dict[str, int]": ("dict[str, int]", ["{'a': 1}"], ["'{\"a\": 1}'", "{'a': 1}", "[('a', 1)]"]),
-    "Union[int, str]": ("typing.Union[int, str]", ["1", "'a'", "'1'"], ["'1'", "1", "'a'", "b'1'"]),
+    "Union[int, str]": ("typing.Union[int, str]", ["1", "'a'", "'1'"], ["'1'", "1", "'a'", "b'1'", "'z' * 5000", "'7' * 5000"]),
     "Union[str, int]": ("typing.Union[str, int]", ["1", "'a'", "'1'"], ["'1'", "1", "'a'", "b'1'"]),
     "float | str": ("float | str", ["1.5", "'abc'", "'1.5'"], ["'1.5'", "'abc'", "1", "b'2.5'"]),
     # (member sets no other union of this pool has: equal-but-reordered unions share routines, K-EQCACHE)
@@ -253,6 +262,11 @@ SPLIT = {
     "tuple[int, int, int] | tuple[int, int]": ("[1, 2]", "[1, 2, 3]"), "Wide | Narrow": ("{'x': 1}", "{'x': 1, 'y': 2}"),
     "float | str": ("'abc'", "'1.5'"), "list[float | str]": ("['seven', '7.5']", "['7.5', 'seven']"),
 }
+# inputs most routines reject, and probes whose outcome depends on interpreter-wide settings (int <-> text digit limit, decimal
+# context) or on what a routine remembers about a failed attempt
+REJECTS = ["'z' * 5000", "'7' * 5000 + 'x'", "Sentinel()", "None", "b'\\xff\\xfe'", "[[['x']]]", "10 ** 400", "'not-a-thing'", "float('nan')", "{'zz': 1}"]
+PROBES = [("unmarshal", "str", "7 * 10 ** 6000"), ("unmarshal", "int", "'7' * 5000"), ("unmarshal", "Decimal", "'1.10'"),
+          ("unmarshal", "float", "'2.5'"), ("marshal", "Decimal", "decimal.Decimal('1.00')")]
 PARTNERS = [
     {"Union[int, str]", "Union[str, int]"}, {"int | None | str", "str | None | int"}, {"Literal[1, 2]", "Literal[2, 1]"},
     {"Optional[list[int]]", "list[int] | None"}, {"list[int]", "AL"}, {"dict[str, list[int]]", "SAL"}, {"'Item'@A", "'Item'@B"},
@@ -620,6 +634,16 @@ def machine(col, seed, n_examples, steps):
             col.label("op:split-union-history")
             for src in pair:
                 self._call(op, key, eval(src, pool()), src)  # noqa: S307
+
+        @rule(key=st.sampled_from(["int", "float", "Decimal", "Union[int, str]", "list[int]", "Optional[int]", "datetime", "uuid", "E", "DC", "Node"]),
+              junk=st.sampled_from(REJECTS), probe=st.integers(0, 2))
+        def rejected_call_then_probes(self, key, junk, probe):
+            """a call the routine rejects (or hands on to a later union member), handled - then probes whose outcome would show a
+            process-wide setting or a flag left behind by the failed attempt"""
+            col.label("op:rejected-then-probe")
+            self._call("unmarshal", key, eval(junk, pool()), junk)  # noqa: S307
+            for op, k2, src in PROBES[probe:] + PROBES[:probe]:
+                self._call(op, k2, eval(src, pool()), src)  # noqa: S307
 
         @rule()
         def clear_caches(self):
